@@ -12,7 +12,7 @@ import (
 
 type c03 struct{}
 
-func init() { core.Register(c03{}) }
+func init()            { core.Register(c03{}) }
 func (c03) ID() string { return "C03" }
 
 type c03Case struct {
